@@ -32,7 +32,7 @@ pub const ORIGINS: [&str; 7] = [
 pub const LANDING: &str = "https://demo.example.com";
 
 /// Redirect URIs requests may carry: the registered ones, near misses and loopback forms.
-pub const REDIRECTS: [&str; 34] = [
+pub const REDIRECTS: [&str; 41] = [
     "https://demo.example.com/oauth2/result",
     "https://portal.example.com/?custom=foo",
     "https://demo.example.com/cb",
@@ -65,6 +65,14 @@ pub const REDIRECTS: [&str; 34] = [
     "http://127.1/cb",
     "http://127.255.0.3/x",
     "http://localhost.evil.net/cb",
+    // look-alikes of the loopback name (suffix / prefix / subdomain): never loopback
+    "http://notlocalhost/cb",
+    "http://evil-localhost:8765/cb",
+    "http://x.localhost/cb",
+    "http://login.attackerlocalhost/cb",
+    "http://localhost.localdomain/cb",
+    "http://localhost1/cb",
+    "http://127.0.0.1.example.com/cb",
     "https://localhost/cb",
     "http://LOCALHOST/x",
 ];
